@@ -56,6 +56,9 @@ func checkC04(run *Run, res *Result) {
 	assigned := map[int]map[int]bool{} // member -> vBuckets of the range the current session was opened on
 	open := map[int]bool{}             // member -> between AfterStreamStart and BeforeStreamStop
 	outOfRangeAcked := map[vbKey]int{} // ack on a vb outside the current range (event number)
+	// file backend (every save writes every vBucket): member -> vb -> tracked position when the previous save of the
+	// session wrote the file; the next save took its dump after that and cannot write anything older
+	posAtLastFileWrite := map[int]map[int]uint64{}
 	for i := range run.Evs {
 		e := &run.Evs[i]
 		k := vbKey{e.M, e.Vb}
@@ -81,6 +84,7 @@ func checkC04(run *Run, res *Result) {
 					}
 				}
 				loaded[e.M] = false
+				delete(posAtLastFileWrite, e.M)
 			case "BeforeStreamStop":
 				open[e.M] = false
 				stopT[e.M] = e.T
@@ -243,6 +247,27 @@ func checkC04(run *Run, res *Result) {
 						"member %d vb %d: cbgo_seq_no_current is %v, furthest settled position is %d", e.M, vb, val, v.pos)
 				}
 			}
+		case journal.KDisk:
+			if e.S != "write" || !open[e.M] {
+				continue
+			}
+			now := parseFileStore(e.Raw)
+			if prev := posAtLastFileWrite[e.M]; prev != nil {
+				for _, vb := range sortedKeys(now) {
+					if p, ok := prev[vb]; ok && now[vb].Seq < p {
+						res.violate("C04", "R8-saved-position-stale", e.N, fmt.Sprintf("vb=%d", vb),
+							"member %d vb %d: the save wrote seqno %d although the tracked position had already been %d when the previous save wrote the file", e.M, vb, now[vb].Seq, p)
+					}
+				}
+				res.probe("file-save-judged")
+			}
+			snap := map[int]uint64{}
+			for kk, v := range st {
+				if kk.m == e.M && v.havePos {
+					snap[kk.vb] = v.pos
+				}
+			}
+			posAtLastFileWrite[e.M] = snap
 		case journal.KKVW:
 			if e.Off == nil || e.Vb < 0 {
 				continue
